@@ -380,18 +380,38 @@ def rule_literals(rep: Report, repo: Repo) -> None:
     rep.rule('C12.LITERALS', 'NUMBER dispatches prefix -> base exactly over the alternatives of number_re; the escape table equals '
              'the reference C escapes and its keys are the escapes the char regex admits; \\xHH takes two hex digits; STRING '
              'packs character i at bits 8i (little-endian); the char decoder returns only positive lengths', 8)
-    consts = {n: repo.const(PARSER, n) for n in ('bin_num', 'hex_num', 'dec_num', 'number_re', 'char', 'string_re', 'escape_chars')}
-    rep.check(consts['bin_num'] == '0[bB][01]+' and consts['hex_num'] == '0[xX][0-9a-fA-F]+' and consts['dec_num'] == '[0-9]+',
-              'C12.LITERALS', 'number regexes', str({k: consts[k] for k in ('bin_num', 'hex_num', 'dec_num')}), PARSER)
-    rep.check(consts['number_re'] == f"({consts['bin_num']})|({consts['hex_num']})|('({consts['char']})')|({consts['dec_num']})",
-              'C12.LITERALS', 'number_re alternatives', consts['number_re'][:70], PARSER, expected='bin | hex | char | dec, in this order')
+    consts = {n: repo.const(PARSER, n) for n in ('number_re', 'string_re', 'escape_chars')}          # the two token patterns and the escape alphabet: how they are assembled from parts is free
+    # the token regexes are compared as LANGUAGES with the reference ones (bin | hex | char literal | dec; "(string char)*"): what each
+    # matches at the start of every string of up to 4 symbols over an alphabet that touches every class boundary - however the classes,
+    # groups and alternatives are spelled (\x20 or a blank, {2} or the class twice, capturing or not, built by join)
+    import itertools as _it
+    REF_ESC = '\\\\[' + re.escape(''.join(REF_ESCAPES)) + ']|\\\\[xX][0-9a-fA-F]{2}'
+    REF_CHAR = '[\\x20-\\x5B\\x5D-\\x7E]|' + REF_ESC
+    REF_NUMBER = f"(0[bB][01]+)|(0[xX][0-9a-fA-F]+)|('({REF_CHAR})')|([0-9]+)"
+    REF_STRING = '"([\\x20\\x21\\x23-\\x5B\\x5D-\\x7E]|' + REF_ESC + ')*"'
+    alphabet = ['0', '1', '2', '9', 'b', 'B', 'x', 'X', 'a', 'f', 'F', 'g', "'", '"', '\\', ' ', '~', '\x7f', '\x1f', '[', ']', 'n', '?', '!', '#']
+
+    def language_diff(got: str, ref: str) -> Optional[str]:
+        try:
+            rg, rr = re.compile(got), re.compile(ref)
+        except re.error as ex:
+            return f'does not compile: {ex}'
+        for L in range(1, 5):
+            for tup in _it.product(alphabet, repeat=L):
+                t = ''.join(tup)
+                mg, mr = rg.match(t), rr.match(t)
+                if (mg.group(0) if mg else None) != (mr.group(0) if mr else None):
+                    return f'on {t!r}: matches {mg.group(0) if mg else None!r}, the reference {mr.group(0) if mr else None!r}'
+        return None
+    dn = language_diff(consts['number_re'], REF_NUMBER)
+    rep.check(dn is None, 'C12.LITERALS', 'NUMBER token language', dn or 'equal to bin | hex | char literal | dec (in this order) on every string of up to 4 symbols',
+              PARSER, expected='bin | hex | char | dec, in this order')
+    ds = language_diff(consts['string_re'], REF_STRING)
+    rep.check(ds is None, 'C12.LITERALS', 'STRING token language', ds or 'equal to "(printable except \\ and " | escape)*" on every string of up to 4 symbols', PARSER)
     esc = repo.const(PARSER, 'char_escape_dict')
     rep.check(esc == REF_ESCAPES, 'C12.LITERALS', 'escape table', str({k: v for k, v in esc.items() if REF_ESCAPES.get(k) != v}) or 'equal',
               PARSER, expected='the 13 C escapes')
-    rep.check(consts['escape_chars'] == ''.join(esc) and consts['char'] ==
-              '[\\x20-\\x5B\\x5D-\\x7E]|\\\\[' + re.escape(consts['escape_chars']) + ']|\\\\[xX][0-9a-fA-F]{2}',
-              'C12.LITERALS', 'char regex', consts['char'][:80], PARSER,
-              expected='printable except backslash | backslash + a table key | \\x + exactly two hex digits')
+    rep.check(consts['escape_chars'] == ''.join(esc), 'C12.LITERALS', 'escape characters', consts['escape_chars'], PARSER, expected='the keys of the escape table')
     # the string token ends at the FIRST unescaped double quote: no alternative of its body may match a bare `"` (read off the regex
     # syntax tree: the first element of every body alternative is a class / literal that excludes 0x22, or a backslash) - otherwise two
     # literals on one line lex as one (`"a" + "b"`), and a quote inside a trailing comment is swallowed
